@@ -51,9 +51,11 @@ OTHER["C15"] = dict(engine="lockstep-confvalid", cat="model_checking", tech="TLA
 OTHER["C17"] = dict(engine="lockstep-placement", cat="model_checking", tech="TLA+ specification of the placement rule chain and ACL semantics (Placement.tla) as a deterministic function; TLC enumerates rule chains x ACL layouts x applications with the expected outcome, lock-step replay through the real SI path",
    text="spec/Placement.tla defines Place(rules, tree, app) from the documented semantics (provided/user/tag/fixed rules, parent rules, filters, create flags, ACL inheritance, name validity, draining and leaf/parent rules, child templates, the implicit recovery rule); TLC checks the specification against the property (invariant Sane) and enumerates cases (exhaustive single-rule family x 12 ACL layouts x 612 applications, plus seeded chains of up to 3 rules with parents); every case is submitted to a real ClusterContext and the answer, the queue, created queues and their template limits are compared",
    note="trusted: TLC, the harness comparison, the rendering of layouts (the draining leaf is produced by a real reload); sub-cases left out on purpose are listed in the header of Placement.tla")
+OTHER["C14"] = dict(engine="concurrency", cat="model_checking", tech="TLA+ refinement of the allocation pipeline into the implementation's critical sections (YKConc.tla) model-checked by TLC, its interleaving classes forced on the real code with gates and validated by YKTrace.tla; concurrent sessions of the real core under the Go race detector; recorded lock acquisition graph checked by TLC (LockOrder.tla)",
+   text="(1) spec/YKConc.tla: scheduling cycle (Select / Commit1 / Commit2) against node removal (two steps), conservation at quiescence model-checked exhaustively; the interleaving classes (an RM event - node removal, re-registration, drain, application removal, release - running entirely inside one of the cycle's gaps, or the cycle inside the node removal) are replayed deterministically on the real core through the gates tryNode.beforeNodeAdd, partition.allocate.entry and removeNode.afterList, every line validated by YKTrace.tla; (2) seeded concurrent sessions (scheduling loop, 4 request streams, node churn, reloads, quota-preemption ticks, timers, late/duplicate confirmations, DAO and health-check readers) built with -race: every data race report, panic, goroutine left blocked in core code is a violation unless it matches a known finding by frame signature; quiescent final state validated (C02_Headroom/RootMax, C09_*, C10_Transitions as verdicts; the ledger invariants are observations there, see level_note); (3) spec/LockOrder.tla: the recorded lock acquisition edges (instance and class level) must be acyclic",
+   note="Schedules are SAMPLED by the Go scheduler: absence of a race report is not a proof. The ledger invariants (C01/C03/C05) of a sampled session's final state are counted but not judged because the known defect family KF-C14-REMOVAL-DURING-CYCLE corrupts exactly those books and cannot be recognised from a final state; that family is decided by the deterministic gate scenarios. Sampled sessions do not remove nodes or applications for the same reason.")
 NA = {
  "C05": "check under construction in this revision (usage invariants exist in YKTrace.tla; the limit-enforcement step check and the UpdateConfig lock-step replay are not registered yet)",
- "C14": "check under construction in this revision (concurrent mode not registered yet)",
 
 
 }
@@ -74,6 +76,7 @@ m = {
    {"name": "sorting-conformance", "path": "/verif/vlib/sorting.py", "serves_properties": ["C19"], "kind_free_text": "ykh sortrec records permutation experiments on the real sorters, TLC validates them against spec/Sorting.tla; ykh nodecoll replays spec/NodeColl.tla behaviours"},
    {"name": "lockstep-confvalid", "path": "/verif/vlib/confvalid.py", "serves_properties": ["C15"], "kind_free_text": "TLC on spec/ConfigValid.tla (MC_ConfigValid) + ykh confvalid"},
    {"name": "lockstep-placement", "path": "/verif/vlib/placement.py", "serves_properties": ["C17"], "kind_free_text": "TLC on spec/Placement.tla (MC_Placement) + ykh placement"},
+   {"name": "concurrency", "path": "/verif/vlib/conc.py", "serves_properties": ["C14"], "kind_free_text": "TLC on spec/YKConc.tla + gate replay (ykh gate), ykh-race conc sessions, TLC on spec/LockOrder.tla"},
    {"name": "trace-validation", "path": "/verif/vlib/tracecheck.py", "serves_properties": sorted(TRACE), "kind_free_text": "Go harness (harness/) drives the real ClusterContext synchronously and logs NDJSON; TLC validates every step against spec/YKTrace.tla"},
  ],
  "checks": checks,
